@@ -88,7 +88,8 @@ func (p *planner) planComplex(root iExpressionPlanner, current iExpressionPlanne
 				prefix: p.getPrefix(),
 			}},
 		})
-		p.planComplex(root, current.operands()[0], script.Tail)
+		ops := current.operands()
+		p.planComplex(root, ops[len(ops)-1], script.Tail)
 	case "||":
 		current.addOp(&simpleExpressionPlanner{
 			script: script,
